@@ -246,6 +246,18 @@ func Build(s Spec, mons ...vnet.Monitor) *Built {
 			return rr.Perm(total)[:n]
 		}
 		initTx = r.Intn(6)
+		if r.Intn(2) == 0 {
+			// the block time (and the maximum block time, if configured) changes from height to height
+			if r.Intn(2) == 0 {
+				cfg.MaxTPB = cfg.TPB * 3
+			}
+			t0, m0, tseed := cfg.TPB, cfg.MaxTPB, s.Seed
+			cfg.TimeSchedule = func(h uint32) (time.Duration, time.Duration) {
+				rr := rand.New(rand.NewSource(tseed ^ int64(h)*40503))
+				k := time.Duration(1 + rr.Intn(4))
+				return t0 * k / 2, m0 * time.Duration(1+rr.Intn(3)) * k / 2
+			}
+		}
 	case "watch":
 		// one validator of the list runs with the watch-only flag; extra nodes outside the list observe
 		cfg = baseConfig(s, r, Opt{Ns: []int{4, 4, 5, 6, 7}, MinH: 3, MaxH: 5, Dyn: 1})
